@@ -414,13 +414,23 @@ func checkTree(t Tree, only string, count func(string)) (fs []finding) {
 			n := len(t.Levels)
 			for i := 0; i < n; i++ {
 				for _, mut := range []string{"AddNode", "DeleteNode", "SetNodes-nil"} {
-					for _, side := range []string{"copy", "source"} {
+					for _, side := range []string{"copy", "source", "copy-into-own-document", "source-into-own-document"} {
 						d, S := t.build()
+						into := gedcom.NewDocument()
+						if strings.HasSuffix(side, "-into-own-document") {
+							// the copy goes into the document the source lives in (it already knows the pointers);
+							// only trees with role nodes behave differently there
+							if !hasRole(S) {
+								continue
+							}
+							into = d
+							side = strings.TrimSuffix(side, "-into-own-document")
+						}
 						var C gedcom.Node
 						if cp == "DeepCopy" {
-							C = gedcom.DeepCopy(S, gedcom.NewDocument())
+							C = gedcom.DeepCopy(S, into)
 						} else {
-							C = gedcom.Filter(S, gedcom.NewDocument(), func(n gedcom.Node) (gedcom.Node, bool) { return n, true })
+							C = gedcom.Filter(S, into, func(n gedcom.Node) (gedcom.Node, bool) { return n, true })
 						}
 						if gedcom.IsNil(C) {
 							continue
@@ -429,7 +439,7 @@ func checkTree(t Tree, only string, count func(string)) (fs []finding) {
 						if side == "source" {
 							target, other = S, C
 						}
-						before := other.GEDCOMString(0)
+						before := other.GEDCOMString(0) + roleViews(other)
 						nodes, parents := index(target)
 						if i >= len(nodes) {
 							continue
@@ -446,7 +456,7 @@ func checkTree(t Tree, only string, count func(string)) (fs []finding) {
 							nodes[i].SetNodes(nil)
 						}
 						count("indep:" + mut)
-						if after := other.GEDCOMString(0); after != before {
+						if after := other.GEDCOMString(0) + roleViews(other); after != before {
 							add("mutation-shows-through:"+cp, fmt.Sprintf("%s on node %d of the %s changed the other tree:\nbefore:\n%safter:\n%s", mut, i, side, before, after), "indep", "")
 						}
 						_ = d
@@ -456,6 +466,50 @@ func checkTree(t Tree, only string, count func(string)) (fs []finding) {
 		}
 	}
 	return
+}
+
+type familyKnower interface{ Family() *gedcom.FamilyNode }
+
+func hasRole(n gedcom.Node) bool {
+	if _, ok := n.(familyKnower); ok {
+		return true
+	}
+	for _, c := range n.Nodes() {
+		if hasRole(c) {
+			return true
+		}
+	}
+	return false
+}
+
+// roleViews: what the role nodes (HUSB/WIFE/CHIL) of a tree say about their family. The text of a tree does
+// not show which family object its role nodes belong to; a copy whose role nodes still belong to the source's
+// family changes when the source does.
+func roleViews(n gedcom.Node) string {
+	var sb strings.Builder
+	var rec func(n gedcom.Node)
+	rec = func(n gedcom.Node) {
+		if fk, ok := n.(familyKnower); ok {
+			func() {
+				defer func() {
+					if r := recover(); r != nil {
+						fmt.Fprintf(&sb, "[%s %s: panic]\n", n.Tag().Tag(), n.Value())
+					}
+				}()
+				f := fk.Family()
+				if f == nil {
+					fmt.Fprintf(&sb, "[%s %s: no family]\n", n.Tag().Tag(), n.Value())
+					return
+				}
+				fmt.Fprintf(&sb, "[%s %s: family %s husband=%v wife=%v children=%d]\n%s", n.Tag().Tag(), n.Value(), f.Pointer(), f.Husband() != nil, f.Wife() != nil, len(f.Children()), f.GEDCOMString(1))
+			}()
+		}
+		for _, c := range n.Nodes() {
+			rec(c)
+		}
+	}
+	rec(n)
+	return sb.String()
 }
 
 // index lists the nodes of a tree in pre-order with their parents.
@@ -520,6 +574,8 @@ func run(tier, unit string, r *vlib.Rec) {
 		runClasses(r, lo, hi)
 	case "apivalues":
 		runAPIValues(r)
+	case "datepairs":
+		runDatePairs(r)
 	case "pairs": // all ordered pairs of trees with exactly n and m<=n nodes over the halved alphabet
 		var trees []Tree
 		for m := 1; m <= n; m++ {
@@ -691,6 +747,7 @@ func plan(tier string) []string {
 	out = append(out, "wide:0:0:1")
 	out = append(out, vlib.Chunks("classes:0", int64(len(classPool)), 2)...)
 	out = append(out, "apivalues:0:0:1")
+	out = append(out, "datepairs:0:0:1")
 	for n := 1; n <= 3; n++ {
 		out = append(out, vlib.Chunks(fmt.Sprintf("kinds:%d", n), int64(len(gen.AllTrees(n)))*gen.Pow(len(kindLabels), n), 3000)...)
 	}
@@ -713,6 +770,10 @@ func replay(c json.RawMessage) (string, string) {
 			return "asymmetric:DeepEqualNodes", obs
 		}
 		return "", obs
+	}
+	if k.Sub == "datepairs" {
+		p := strings.SplitN(k.Arg, "\x00", 3)
+		return checkDatePair(p[0], p[1], p[2])
 	}
 	if k.Sub == "apivalues" {
 		p := strings.SplitN(k.Arg, "\x00", 2)
